@@ -666,6 +666,8 @@ class VM:
         elif op == OpCode.RETURN:
             result = self.stack.pop() if self.stack else UNDEFINED
             popped_frame = self.call_stack.pop()
+            # Discard operands the function left behind (e.g. a loop iterator)
+            del self.stack[popped_frame.bp :]
             # For constructor calls, return the new object unless result is an object
             if popped_frame.is_constructor_call:
                 if not isinstance(result, JSObject):
@@ -674,6 +676,7 @@ class VM:
 
         elif op == OpCode.RETURN_UNDEFINED:
             popped_frame = self.call_stack.pop()
+            del self.stack[popped_frame.bp :]
             # For constructor calls, return the new object
             if popped_frame.is_constructor_call:
                 self.stack.append(popped_frame.new_target)
